@@ -312,8 +312,9 @@ def run(a, res):
         try:
             os.kill(sq.proc.pid, signal.SIGTERM)
             rc = sq.proc.wait(timeout=40)
-        except (OSError, subprocess.TimeoutExpired):
+        except (OSError, subprocess.TimeoutExpired) as e:
             rc = None
+            res.note("clean_stop: " + repr(e)[:200])
         sq.stop()       # reaps stragglers of the session; kills if the wait above timed out
         return rc
 
